@@ -529,7 +529,7 @@ pub fn run_c31(ctx: &Ctx) {
             let sw = if share_all { sweeps_per_len.div_ceil(workers) } else { (sweeps_per_len / 4 / shrink).max(2) };
             for c in 0..count {
                 let vals = gen_sort_list(&mut rng, len);
-                sort_case(&sc, &vals, &mut rng, t, if c < sw { if len <= 5 { usize::MAX } else { gens_cap } } else { 0 });
+                sort_case(&sc, &vals, &mut rng, t, if c < sw { if len <= 5 { usize::MAX } else { (gens_cap / shrink).max(40) } } else { 0 });
                 if c == 0 && wi < 3 {
                     t.sample(json!({"len": len, "input": vals}));
                 }
